@@ -48,6 +48,17 @@ def scenarios(ctx, thorough):
                         [S.call("c%d" % i, 30 + i, k) for i, k in enumerate(S.ALL_KINDS)] +
                         [{"a": "Answer", "tags": [32, 30, 34, 31, 33], "container": True, "gzip": [False, True, False, False, True],
                           "junk": junk, "junkat": "first", "n": 600}, {"a": "Drain"}, {"a": "Settle"}]))
+    # the server answers - one container, one frame - and closes right behind it: the results are in the client's hands,
+    # that their acknowledgements can no longer be written takes nothing away from the callers.  (Several frames would not
+    # do: the reset that answers the client's first acknowledgement discards what the client has not read yet, and the
+    # reference server does not send unacknowledged answers again.)
+    for k in range(4):
+        sid += 1
+        tags = [42, 40, 44, 41, 43]
+        scs.append(S.mk(sid, "answers-then-close", "dispatch",
+                        [S.call("c%d" % i, 40 + i, kd) for i, kd in enumerate(S.ALL_KINDS)] +
+                        [{"a": "Answer", "tags": tags[k:] + tags[:k], "container": True, "gzip": [k % 2 == 1, False, k > 1, False, False], "n": 600, "abort": True},
+                         {"a": "Drain"}, {"a": "Sleep", "n": 200}, {"a": "Probe", "tag": 95}, {"a": "Settle"}]))
     # every result kind alone and in a container with gzip variants
     sid += 1
     scs.append(S.mk(sid, "all-kinds-one-container", "dispatch",
